@@ -79,7 +79,9 @@ impl PartialEq for Array {
         }
 
         for (a, b) in self_elements.iter().zip(other_elements.iter()) {
-            if *a != *b {
+            // Compare the elements by value. Comparing the Rc's is always
+            // true for one shared element, even for a NaN
+            if a.as_ref() != b.as_ref() {
                 return false;
             }
         }
